@@ -182,6 +182,14 @@ func Execute(t *testing.T, sc *Scenario, dec *Decider, obs ...Observer) (*RunRes
 		panic(err)
 	}
 
+	if sc.Knobs.RelRepo {
+		// simulated runs are executed one after the other, so the working
+		// directory of the test process can stand for the one of the csvq process
+		if err := os.Chdir(dir); err != nil {
+			panic(err)
+		}
+		defer func() { _ = os.Chdir(filepath.Join(BaseDir, "cwd")) }()
+	}
 	startIDs := statFiles(dir, sc.Files)
 	gm := query.GetGoroutineManager()
 	gm.Count = 0
